@@ -469,6 +469,14 @@ func c11RandString(r *lib.Rng, alpha, n int) []byte {
 }
 
 func c11Blocks(tier string) []*c11Block {
+	if tier == "search" { // after a correspondence break: the quick enumeration at all four block sizes plus larger samples
+		return []*c11Block{
+			{name: "a2/olds1", bss: []int{1, 2, 3, 4}, alpha: 2, nOlds: 1, maxOld: 5, maxSrc: 8, sampleTarget: 300},
+			{name: "a2/olds2/len4", bss: []int{1, 2, 3, 4}, alpha: 2, nOlds: 2, maxOld: 4, maxSrc: 7, sampleTarget: 400},
+			{name: "a2/olds3/len7", bss: []int{1, 2, 3, 4}, alpha: 2, nOlds: 3, maxOld: 7, maxSrc: 9, sampleOnly: 3000},
+			{name: "a3/olds3/len7", bss: []int{1, 2, 3, 4}, alpha: 3, nOlds: 3, maxOld: 7, maxSrc: 9, sampleOnly: 3000},
+		}
+	}
 	if tier == "quick" {
 		return []*c11Block{
 			{name: "a2/olds1", bss: []int{1, 2, 3}, alpha: 2, nOlds: 1, maxOld: 5, maxSrc: 7, sampleTarget: 300},
@@ -984,7 +992,7 @@ func c11BigCases(r *lib.Rng, tier string) []*c11Big {
 // run-length friendly real-constant cases: these are also evaluated by the model (group "big",
 // about two minutes of vm_compute per 4 MiB of source), thorough tier only
 func c11RleCases(r *lib.Rng, tier string) []*c11Big {
-	if tier == "quick" {
+	if tier != "thorough" {
 		return nil
 	}
 	bs := c11BS
